@@ -95,12 +95,15 @@ class Channel(AsyncIterable, Generic[ST]):
         self._consumer_buffers[sentinel] = buffer = deque()  # type: Deque[ST]
         try:
             while True:
-                while buffer:
-                    yield buffer.popleft()
-                if self._closed:
+                if buffer or self._closed:
+                    # nothing to wait for, but allow other activities to run
                     await postpone()
+                else:
+                    await self._notification
+                if buffer:
+                    yield buffer.popleft()
+                elif self._closed:
                     break
-                await self._notification
         finally:
             del self._consumer_buffers[sentinel]
 
